@@ -19,7 +19,8 @@ CLAIMS = {
             "publication of the reports, are validated by the simulation monitors, not proved",
             "contract refinement + multiset ledger invariant; whole-system ledger invariant preserved by every step kind + induction over reachability (Lean 4) ; differential correspondence of the scheduler models; step-by-step replay of simulated runs by the Lean system model with the invariants (incl. the ledger) evaluated after every step"),
     "C03": ("Lean theorems: remove_node returns the head of the dead node's book as the crash item and the tail to the pool (load, worksteal); "
-            "with any number of crashes every index is outstanding, completed or crash-reported exactly once. Whole system, --dist load (controller + workers + channels, every "
+            "with any number of crashes every index is outstanding, completed or crash-reported exactly once. WHOLE SYSTEM, ALL SIX MODES (C03_sys_one_crash_report_per_worker_all_modes): after any execution at most one crash report "
+            "per worker, under the dead worker's own id, published only by the handler of its death notice. Whole system, --dist load (controller + workers + channels, every "
             "interleaving, any number of earlier crashes/replacements/re-queues): the book of a live worker is completions in flight ++ the test it executes ++ what it holds, and when "
             "the controller handles the death notice of a worker that died inside test i the crash report it publishes is about test i of the agreed collection "
             "(C03_sys_load_crash_item; a seventh invariant layer about dead workers with a ghost history component); and, for every execution without an undecodable message, the ledger "
@@ -74,6 +75,7 @@ CLAIMS = {
             "once a stop reason is set it stays set, every loop iteration ends with the shutdown in force and all scheduled workers told to shut down, and from then on - and in the "
             "iteration that sets it - nothing is dispatched, whatever events follow (ready, finished, crashed workers incl. replacement within the budget); the run is interrupted iff a "
             "reason was set; a reason is set only by --maxfail failed reports or a worker ending with fail-fast/stop/keyboard interrupt; WHOLE SYSTEM, all six modes (C11_sys_no_dispatch_after_stop): "
+            "a stop reason is set only by a step of the controller handling a workerfinished with exit status 2/shouldfail/shouldstop or a failed report reaching --maxfail (C11_sys_only_reasons_to_stop); "
             "continue any execution of the composed system after the stop decision in any way - receiver threads flipping flags and writing shutdown signals between controller iterations, crashes, replacements - "
             "and the dispatching commands ever written to the wires never change again",
             "invariant (ShutInv) + frame lemmas by case analysis over all handlers, induction over the event list, per-scheduler quietness lemmas (Lean 4) ; whole-system simulation on the real stack with the stop decision observed at the moment DSession.shouldstop is assigned"),
